@@ -84,7 +84,8 @@ def run_real(case):
         max_members=case.max_members, max_retries_per_step=case.max_retries,
         representation_of=lambda v: np.asarray(v, dtype=float),
         step_min=case.step_min, step_max=case.step_max, stepper=case.stepper,
-        state_indices=None if case.idx is None else np.asarray(case.idx, dtype=int))
+        state_indices=None if case.idx is None else np.asarray(case.idx, dtype=int),
+        shrink_policy=shrink_policy_of(case))
     call = intf.to_backend_inputs(prob)
     resp = pipe._backend.run(request=call.request)
     info = resp.info
@@ -98,6 +99,24 @@ def run_real(case):
         "consumed": k[0],
     }
     return tr, recorded, (intf, prob, resp)
+
+
+def shrink_policy_of(case):
+    """None (library default: halving), a dyadic factor (custom policy `step -> factor*step`) or "raise" (a policy that raises: the stepper
+    falls back to halving)"""
+    sh = getattr(case, "shrink", None)
+    if sh is None:
+        return None
+    if sh == "raise":
+        def bad(step):
+            raise ValueError("scripted shrink policy failure")
+        return bad
+    return lambda step: np.asarray(step, dtype=float) * float(sh)
+
+
+def shrink_factor(case):
+    sh = getattr(case, "shrink", None)
+    return 0.5 if sh in (None, "raise") else float(sh)
 
 
 def _rat_norm_ok(v):
@@ -116,7 +135,7 @@ def exact_comparable(case, tr):
     cur = np.asarray(case.step, dtype=float)
     vs.append(cur)
     for i in range(tr["consumed"]):
-        cur = np.sign(cur) * np.clip(np.abs(cur if case.act(i) == "A" else cur * 0.5), case.step_min, case.step_max)
+        cur = np.sign(cur) * np.clip(np.abs(cur if case.act(i) == "A" else cur * shrink_factor(case)), case.step_min, case.step_max)
         vs.append(cur)
     if not all(_rat_norm_ok(v) for v in vs):
         return False
@@ -132,6 +151,7 @@ def driver_text(case, recorded):
          "tmin " + vec(case.tmin), "tmax " + vec(case.tmax),
          "idx none" if case.idx is None else "idx " + " ".join(str(i) for i in case.idx),
          "pidx " + " ".join(str(i) for i in case.pidx),
+         "shrink " + fr(shrink_factor(case)),
          "seed " + vec(case.seed), "step " + vec(case.step)]
     for r in recorded:
         if r[0] == "ok":
@@ -195,9 +215,10 @@ def property_clauses(ctx, case, tr):
             new = np.sign(cur) * np.clip(np.abs(cur), case.step_min, case.step_max)
         else:
             consec += 1
-            new = np.sign(cur * 0.5) * np.clip(np.abs(cur * 0.5), case.step_min, case.step_max)
+            sf = shrink_factor(case)
+            new = np.sign(cur * sf) * np.clip(np.abs(cur * sf), case.step_min, case.step_max)
             nz = cur != 0
-            if np.any(np.abs(new[nz]) > np.abs(cur[nz])) and np.all(np.abs(cur[nz]) >= case.step_min):
+            if sf <= 1 and np.any(np.abs(new[nz]) > np.abs(cur[nz])) and np.all(np.abs(cur[nz]) >= case.step_min):
                 return "step-shrink", "step grew after a failed correction"
         cur = new
         nzn = cur != 0
@@ -206,7 +227,7 @@ def property_clauses(ctx, case, tr):
         if consec > case.max_retries + 1:
             return "retry-limit", "more than max_retries+1 consecutive failed corrections at one member"
     if not np.array_equal(cur, tr["step"]):
-        return "step-bounds", "final step %r differs from halving/clamping discipline %r" % (tr["step"].tolist(), cur.tolist())
+        return "step-bounds", "final step %r differs from the shrink/clamp discipline %r" % (tr["step"].tolist(), cur.tolist())
     # termination reason
     ended_fail = consec == case.max_retries + 1 and tr["consumed"] > 0 and case.act(tr["consumed"] - 1) != "A"
     left = len(par) >= 2 and (np.any(par[-1] < tmin) or np.any(par[-1] > tmax))
@@ -273,7 +294,12 @@ def make_case(rng, stepper, mm, mr, script, dirs2):
         # loose for oblique 2-D secant cases (1-D secant cases exercise the clamping)
         smin, smax = 2.0 ** -20, 64.0
     periods = [rng.choice([None, 2.0, 2.5, 3.25]) for _ in range(4)]
-    return Case(stepper=stepper, max_members=mm, max_retries=mr, script=script, seed=seed, step=step, idx=None if idx is None else tuple(idx),
+    # shrink policy: mostly the library default (None = halving); custom dyadic factors (aggressive 1/8, 1/4; growing 2: the clamp must
+    # hold for every policy) and a policy that raises
+    shrink = rng.choice([None, None, None, 0.125, 0.25, 0.75, 2.0, "raise"])
+    if stepper == "secant" and dim == 2 and shrink not in (None, "raise"):
+        shrink = rng.choice([0.25, 2.0])
+    return Case(shrink=shrink, stepper=stepper, max_members=mm, max_retries=mr, script=script, seed=seed, step=step, idx=None if idx is None else tuple(idx),
                 pidx=pidx, tmin=[lo], tmax=[hi], step_min=smin, step_max=smax, deltas=deltas, periods=periods)
 
 
@@ -345,6 +371,8 @@ def run(ctx):
     ctx.extra["correspondence_cases"] = len(owners)
     ctx.extra["correspondence_mismatches"] = mism
     corrector_glue(ctx)
+    if not ctx.violations:
+        public_plumbing(ctx)
     if ctx.thorough() and not ctx.violations:
         end_to_end(ctx)
     ctx.rule = ("scripted corrector outcome sequences over {Accept, Reject, raise}: exhaustive up to length 5 (6 thorough, thinned) for 8 "
@@ -402,6 +430,88 @@ def corrector_glue(ctx):
         if prob_txt:
             ctx.violation("clause:corrector-glue", prob_txt, {"prediction": pred.tolist(), "corrected": np.asarray(x).tolist(), "half_period": half,
                                                                "converged": conv, "returned_flag": bool(ok), "aux": repr(aux)})
+            return
+
+
+def public_plumbing(ctx):
+    """the public ContinuationPipeline / OrbitContinuationConfig / OrbitContinuationOptions path with several continuation components in the
+    USER'S order (also non-ascending, e.g. state=(Z, X)): column k of step / target / parameter_values belongs to state[k].  Real interface,
+    backend and natural stepper; only the orbit correction accepts every prediction unchanged, so members == predictions (dyadic data)."""
+    from hiten.algorithms.continuation.base import ContinuationPipeline
+    from hiten.algorithms.continuation.config import OrbitContinuationConfig
+    from hiten.algorithms.continuation.interfaces import _OrbitContinuationInterface
+    from hiten.algorithms.continuation.options import OrbitContinuationOptions
+    from hiten.algorithms.types.states import SynodicState
+    rng = ctx.rng
+
+    class AcceptAll(_OrbitContinuationInterface):
+        def __init__(self):
+            super().__init__()
+            self.predictions = []
+
+        def _build_corrector(self, problem):
+            def _correct(prediction):
+                pred = np.asarray(prediction, dtype=float).copy()
+                self.predictions.append(pred)
+                return pred, 0.0, True, {"period": 2.5}
+            return _correct
+
+    class Orb:
+        def __init__(self, libration_point=None, initial_state=None):
+            self.libration_point = libration_point
+            self.initial_state = np.asarray(initial_state, dtype=float)
+            self.period = 2.5
+
+    comps = [SynodicState.X, SynodicState.Y, SynodicState.Z, SynodicState.VX, SynodicState.VY, SynodicState.VZ]
+    for trial in range(6):
+        k = rng.choice([2, 2, 3])
+        state = tuple(rng.sample(comps, k))
+        if trial == 0:
+            state = (SynodicState.Z, SynodicState.X)
+        idx = [int(c) for c in state]
+        step = tuple(rng.choice([-1, 1]) * rng.choice([2.0 ** -4, 2.0 ** -3, 2.0 ** -5, 2.0 ** -2]) for _ in idx)
+        seed = Orb("LP", [0.5, 0.25, -0.125, 0.0, 1.0, 0.75])
+        s0 = seed.initial_state
+        lo = [float(s0[i] - 0.3) for i in idx]
+        hi = [float(s0[i] + 0.3) for i in idx]
+        spec = state if rng.random() < 0.5 else tuple(int(c) for c in state)     # enums or plain ints
+        try:
+            cfg = OrbitContinuationConfig(state=spec, stepper="natural")
+            opts = OrbitContinuationOptions(target=(lo, hi), step=step, max_members=12, max_retries_per_step=2, step_min=2.0 ** -20, step_max=1.0)
+            iface = AcceptAll()
+            res = ContinuationPipeline.with_default_engine(config=cfg, interface=iface).generate(seed, opts)
+            members = [np.asarray(o.initial_state, dtype=float) for o in res.family]
+            params = [np.asarray(p, dtype=float).ravel() for p in res.parameter_values]
+        except Exception as ex:
+            ctx.notes.append("public_plumbing: pipeline raised %r for state=%r" % (ex, spec))
+            ctx.broken.append(("correspondence:public-plumbing", "public pipeline raised %r" % (ex,)))
+            ctx.obligations["correspondence:public-plumbing"] = False
+            return
+        ctx.case(("public-plumbing", tuple(idx), step), nontrivial=idx != sorted(idx), kind="public-plumbing:%s" % ("ascending" if idx == sorted(idx) else "user-order"))
+        names = tuple(SynodicState(i).name for i in idx)
+        bad = None
+        for j, pred in enumerate(iface.predictions):
+            if j >= len(members):
+                break
+            d = pred - members[j]
+            if not (np.array_equal(d[idx], np.asarray(step)) and not np.any(np.delete(d, idx))):
+                bad = ("prediction-offset", "prediction %d is offset by %r in %r, the configured step is %r" % (j, d[idx].tolist(), names, list(step)))
+                break
+        if bad is None:
+            for j, (m, pv) in enumerate(zip(members, params)):
+                if not np.array_equal(pv, m[idx]):
+                    bad = ("parameter-values", "member %d: reported parameter %r is not its %r = %r" % (j, pv.tolist(), names, m[idx].tolist()))
+                    break
+        if bad is None:
+            outside = [bool(np.any(m[idx] < np.asarray(lo)) or np.any(m[idx] > np.asarray(hi))) for m in members]
+            if any(outside[:-1]):
+                bad = ("stops-outside-target", "member %d (not the last) lies outside the target box" % outside.index(True))
+            elif len(members) < 12 and not outside[-1]:
+                bad = ("stops-outside-target", "generation stopped after %d members although no member left the target box" % len(members))
+        if bad:
+            ctx.violation("clause:" + bad[0], "public pipeline, state=%r: %s" % (names, bad[1]),
+                          {"state": list(names), "state_indices": idx, "step": list(step), "target": [lo, hi], "seed": s0.tolist(),
+                           "members": [m.tolist() for m in members], "parameter_values": [p.tolist() for p in params]})
             return
 
 
